@@ -31,6 +31,17 @@ var engineAssumptions = []string{
 
 var checks = []Check{
 	{
+		ID: "C17", Title: "hot restart hand-over ordered, acknowledged, robust to bad frames", Level: "fault_enumeration",
+		LevelText: "bounded-exhaustive enumeration over real unix sockets: every frame (12 types x payload 0..4100 x 13 declared lengths) through the real reader, full round trips through the real sender, every request sequence up to length 4/5 through the real Restarter with a scripted instance, and a first child dropped at every point (after k requests, mid-header, after a malformed frame) followed by a second child",
+		Technique: "bounded-exhaustive frame enumeration + fault-point enumeration over request histories on the real Restarter",
+		Rule:      "each evaluation is a distinct frame or a distinct (request sequence, drop point) history",
+		Assumptions: []string{"Go compiler and runtime", "kernel unix stream sockets (abstract namespace)", "the protocol is request/reply, so outcomes do not depend on goroutine timing; a 30 s read deadline only detects a hung hand-over"},
+		Jobs: []Job{
+			{Pkg: "cmd/samaritan/hotrestart", Scenarios: []string{"C17/frames"}, Shards: 12, QuickS: 90, ThoroughS: 300},
+			{Pkg: "cmd/samaritan/hotrestart", Scenarios: []string{"C17/handover"}, Shards: 8, QuickS: 90, ThoroughS: 600},
+		},
+	},
+	{
 		ID: "C19", Title: "hot keys: counters exact for tracked keys and bounded", Level: "model_checking",
 		LevelText: "explicit-state BFS over every Incr/Latch/Free sequence on the real Counter (capacity 0..3, depth 7/9) against a reference map plus structural invariants of the frequency list; DFS over every Collector history (depth 5/6) including every rand outcome of the logarithmic counter and a minute tick at any clock read; every insert sequence into the sorted report; every interleaving (P<=2/3) of writers, collect, reader and Free",
 		Technique: "explicit-state search over operation histories on the real objects + preemption-bounded schedule exploration",
